@@ -421,6 +421,69 @@ pub fn run_insitu(sc: &Insitu) -> (Option<(String, String)>, Counters, u64) {
     })
 }
 
+/// Fills a fresh table with `n_keys` distinct keys (depth 0..3), then performs 20 000 stores
+/// and lookups on keys among them. Every store is bracketed by lookups and judged like in
+/// `replay_ops`. Deterministic in (rng state, n_keys).
+pub fn run_huge(rng: &mut Rng, n_keys: u64) -> (Option<(String, String)>, Counters) {
+    let mut probes = Counters::default();
+    let base = rng.next_u64() | 1;
+    let key_of = |i: u64| -> u64 { i.wrapping_mul(0x9E37_79B9_7F4A_7C15) ^ base };
+    let depth_of = |i: u64| -> u8 { (i % 4) as u8 };
+    let st = crate::simworld::SimState::new(0, 0);
+    let proc_ = crate::simworld::Proc::start(st, None);
+    let mut ops: Vec<(u64, Option<ModelEntry>)> = vec![];
+    for _ in 0..20_000 {
+        let i = rng.below(n_keys);
+        if rng.chance(1, 3) {
+            ops.push((i, None));
+        } else {
+            let d = (depth_of(i) as i64 + rng.range(0, 2) as i64 - 1).max(0) as u8; // shallower, equal, deeper
+            ops.push((i, Some(ModelEntry { eval: rng.range(0, 4000) as i32 - 2000, mv: None, depth: d, bound: rng.below(3) as u8 })));
+        }
+    }
+    let (o, r) = proc_.run(|| {
+        let mut tt = TranspositionTable::new();
+        for i in 0..n_keys {
+            tt.store(key_of(i), i as i32 & 0xFFFF, None, depth_of(i), Bounds::Exact);
+        }
+        let mut last: HashMap<u64, Seen> = HashMap::new();
+        for (n, (i, st)) in ops.iter().enumerate() {
+            let key = key_of(*i);
+            let filled = ModelEntry { eval: *i as i32 & 0xFFFF, mv: None, depth: depth_of(*i), bound: 0 };
+            let before = match seen_of(tt.retrieve(key).copied(), key) {
+                Ok(x) => x,
+                Err(v) => return Some(v),
+            };
+            // what the key was last seen to hold: from an earlier operation, or the fill
+            let known = last.get(&key).cloned().unwrap_or(Some(filled));
+            if let Some(v) = judge_lookup(key, Some(&known), &before, &mut probes) {
+                return Some((v.0, format!("table of {} keys, operation {}: {}", n_keys, n, v.1)));
+            }
+            match st {
+                None => {
+                    last.insert(key, before);
+                }
+                Some(new) => {
+                    tt.store(key, new.eval, None, new.depth, bound_of(new.bound));
+                    let after = match seen_of(tt.retrieve(key).copied(), key) {
+                        Ok(x) => x,
+                        Err(v) => return Some(v),
+                    };
+                    if let Some(v) = judge_store(key, &before, new, &after, &mut probes) {
+                        return Some((v.0, format!("table of {} keys, operation {}: {}", n_keys, n, v.1)));
+                    }
+                    last.insert(key, after);
+                }
+            }
+        }
+        None
+    });
+    match o {
+        crate::simworld::Outcome::Returned => (r.flatten(), probes),
+        o => (Some(("crash".into(), format!("{:?}", o))), probes),
+    }
+}
+
 pub fn gen_insitu(rng: &mut Rng) -> Insitu {
     let p = if rng.chance(1, 4) {
         // positions with mates and stalemates inside the horizon: mate scores get stored
@@ -459,6 +522,17 @@ fn scenario_json(ops: &[Op], origin: &str) -> Value {
 }
 
 pub fn replay_value(v: &Value) -> Vec<Violation> {
+    if let Some(h) = v.get("huge") {
+        let n = h["keys"].as_u64().unwrap_or(0);
+        let seed = h["rng_seed"].as_u64().unwrap_or(0);
+        // same generator state as in the batch: the sim's rng after the draws made before
+        let mut rng = Rng::new(seed);
+        let (viol, _) = run_huge(&mut rng, n);
+        return viol
+            .into_iter()
+            .map(|(class, detail)| Violation { prop: "C15".into(), class, detail, scenario: v.clone(), sim_index: 0, sim_seed: 0, log_hash: n })
+            .collect();
+    }
     if let Some(sc) = Insitu::from_json(v) {
         let (viol, _, h) = run_insitu(&sc);
         return viol
@@ -483,6 +557,9 @@ pub fn replay_value(v: &Value) -> Vec<Violation> {
 }
 
 pub fn shrink_value(v: &Value) -> Vec<Value> {
+    if v.get("huge").is_some() {
+        return vec![];
+    }
     if let Some(sc) = Insitu::from_json(v) {
         let mut out = vec![];
         for i in 0..sc.steps.len() {
@@ -559,6 +636,30 @@ pub fn run(ctx: &Ctx) -> i32 {
         let seed = derive(ctx.seed, "C15", i);
         let mut rng = Rng::new(seed);
         let mut res = SimResult::default();
+        let huge = match ctx.tier {
+            Tier::Quick => i == 8,
+            Tier::Thorough => i % 30_000 == 8,
+        };
+        if huge {
+            // a table that has grown large (more than a million positions, as over a long
+            // game): stores and lookups on keys that are already cached must still obey the
+            // rules. Judged on the fly; on a violation the last operations form the replay.
+            let n_keys: u64 = match ctx.tier {
+                Tier::Quick => 1_300_000,
+                Tier::Thorough => [70_000u64, 300_000, 1_100_000, 2_200_000, 4_300_000][(seed % 5) as usize],
+            };
+            let (viol, probes) = run_huge(&mut rng, n_keys);
+            res.evaluations = 1;
+            res.probes.merge(&probes);
+            res.probes.add("huge_table_histories", 1);
+            res.log_hash = n_keys;
+            res.distinct.push(hash_str(&format!("huge {}", n_keys)));
+            if let Some((class, detail)) = viol {
+                let sc = json!({"origin": "huge", "huge": {"keys": n_keys, "rng_seed": seed}});
+                res.violations.push(Violation { prop: "C15".into(), class, detail, scenario: sc, sim_index: i, sim_seed: seed, log_hash: n_keys });
+            }
+            return res;
+        }
         if i % 6 == 1 {
             let sc = gen_insitu(&mut rng);
             let (viol, probes, h) = run_insitu(&sc);
@@ -639,7 +740,7 @@ pub fn run(ctx: &Ctx) -> i32 {
     });
     let ev = Evidence {
         level: "exploration",
-        rule: "Three kinds of history. In-situ (one sixth): 2-5 searches on ONE engine without reset (same position at other depths, a successor whose tree overlaps, clock-interrupted searches, refused stores); every store the searcher makes is judged by what the engine's own table shows for that key right before and right after the call (a shallower result must not replace a deeper one, an equal or deeper one must, nothing else may appear), and after each search the table may hold nothing but what those stores left. Replayed: histories of store/retrieve calls, one third recorded from simulated searches on one table (a clock-interrupted search followed by two completed ones, optionally with refused stores), the rest synthetic over 1-6 keys (some differing only in their high bits) with depths 0..4, many ties and scores that include mate values and window edges. Each history is replayed call by call on a fresh real TranspositionTable, every store bracketed by a lookup of its key; a lookup must show nothing or exactly the data last seen accepted for that key, and each store must obey the replacement rule. A table that forgets entries is tolerated (counted in entries_lost_*), as the property allows a lookup to return nothing. A case = a history with at least one store and one retrieve; distinct by content hash.".into(),
+        rule: "Four kinds of history. Huge (one per quick batch, more in thorough): a fresh table filled with 0.07-4.3 million distinct keys, then 20 000 bracketed stores (shallower, equal, deeper) and lookups on cached keys. In-situ (one sixth): 2-5 searches on ONE engine without reset (same position at other depths, a successor whose tree overlaps, clock-interrupted searches, refused stores); every store the searcher makes is judged by what the engine's own table shows for that key right before and right after the call (a shallower result must not replace a deeper one, an equal or deeper one must, nothing else may appear), and after each search the table may hold nothing but what those stores left. Replayed: histories of store/retrieve calls, one third recorded from simulated searches on one table (a clock-interrupted search followed by two completed ones, optionally with refused stores), the rest synthetic over 1-6 keys (some differing only in their high bits) with depths 0..4, many ties and scores that include mate values and window edges. Each history is replayed call by call on a fresh real TranspositionTable, every store bracketed by a lookup of its key; a lookup must show nothing or exactly the data last seen accepted for that key, and each store must obey the replacement rule. A table that forgets entries is tolerated (counted in entries_lost_*), as the property allows a lookup to return nothing. A case = a history with at least one store and one retrieve; distinct by content hash.".into(),
         extra: serde_json::Map::new(),
         assumptions: vec![
             "the table is a deterministic function of its call sequence, so replaying recorded calls is equivalent to observing returns inside the search; the in-situ audit covers what the engine does to its table between calls (per-search housekeeping)".into(),
